@@ -19,7 +19,9 @@ open Txdbus.Client.Endpoints
 exactly when the attempt is over; it fired with the connection exactly when Hello succeeded; and it HAS
 fired as soon as the history contains a Hello reply, a Hello error, a transport close in any phase, an
 authentication failure, or the failure of the last address of the list (`concludes`) - and stays fired;
-with no usable address at all it fires at once. -/
+what it fired with is decided by the event that concluded the attempt (`resultOf`): the connection if and
+only if that event is a Hello reply carrying a bus name, the matching failure otherwise - whatever comes
+later; with no usable address at all it fires at once. -/
 theorem connect_fires_once (eps : List Endpoint) (h : List Ev) :
     (run .repaired (connect eps) h).fired.length ≤ 1 ∧
     ((run .repaired (connect eps) h).phase.concluded = true ↔ (run .repaired (connect eps) h).fired.length = 1) ∧
@@ -27,13 +29,19 @@ theorem connect_fires_once (eps : List Endpoint) (h : List Ev) :
       ((run .repaired (connect eps) h).phase = .ready ∨ (run .repaired (connect eps) h).phase = .lost)) ∧
     (∀ (h₁ : List Ev) (e : Ev) (h₂ : List Ev), h = h₁ ++ e :: h₂ →
       concludes (run .repaired (connect eps) h₁) e = true → (run .repaired (connect eps) h).fired.length = 1) ∧
+    -- cause and kind: the event that concludes the attempt decides what the Deferred fired with, for good
+    (∀ (h₁ : List Ev) (e : Ev) (h₂ : List Ev), h = h₁ ++ e :: h₂ →
+      concludes (run .repaired (connect eps) h₁) e = true →
+      (run .repaired (connect eps) h₁).phase.concluded = false →
+      (run .repaired (connect eps) h).fired = [resultOf e] ∧
+      ((run .repaired (connect eps) h).fired = [.connection] ↔ e = .helloReply true)) ∧
     (eps = [] → (run .repaired (connect eps) h).fired.length = 1) := by
   obtain ⟨hi, _⟩ := reachable_inv eps h
   have hle : (run .repaired (connect eps) h).fired.length ≤ 1 := by
     cases hc : (run .repaired (connect eps) h).phase.concluded with
     | true => exact Nat.le_of_eq (hi.done hc)
     | false => simp [hi.notYet hc]
-  refine ⟨hle, ⟨hi.done, ?_⟩, ⟨?_, hi.kind⟩, ?_, ?_⟩
+  refine ⟨hle, ⟨hi.done, ?_⟩, ⟨?_, hi.kind⟩, ?_, ?_, ?_⟩
   · intro hl
     cases hc : (run .repaired (connect eps) h).phase.concluded with
     | true => rfl
@@ -51,6 +59,22 @@ theorem connect_fires_once (eps : List Endpoint) (h : List Ev) :
     have h2 := concluded_run h₂ _ h1
     have hi₂ := inv1_run h₂ _ (inv1_step _ e hi₁)
     exact hi₂.done h2
+  · intro h₁ e h₂ hh hc hn
+    subst hh
+    obtain ⟨hi₁, _⟩ := reachable_inv eps h₁
+    have hfe : (run .repaired (connect eps) (h₁ ++ e :: h₂)).fired = [resultOf e] := by
+      rw [run_append]
+      simp only [run]
+      rw [fired_stable_run h₂ _ (inv1_step _ e hi₁) (concludes_step _ e hi₁ hc), conclude_fired _ e hi₁ hc hn]
+    refine ⟨hfe, ?_⟩
+    rw [hfe]
+    constructor
+    · intro hr
+      have hr' : resultOf e = .connection := by simpa using hr
+      cases e with
+      | helloReply named => cases named <;> simp_all [resultOf]
+      | _ => simp [resultOf] at hr'
+    · intro he; subst he; rfl
   · intro he
     subst he
     exact (inv1_run h _ (inv1_connect [])).done (concluded_run h _ (by simp [connect, fire, St.empty, Phase.concluded]))
@@ -175,7 +199,7 @@ def exUnix : Endpoint := { target := .unix ['/', 'b'], args := [] }
 /-- A ready connection with two calls in flight (one timed, one that retries), two connection-level
 callbacks (the first unregisters itself), an explicit and an introspected proxy of the same object. -/
 def exHistory : List Ev :=
-  [.attemptFails .dnsLookup, .attemptConnects, .authProgress, .authOk, .helloReply,
+  [.attemptFails .dnsLookup, .attemptConnects, .authProgress, .authOk, .helloReply true,
    .notify .unregisterSelf, .notify .nothing, .call true .newCall, .call false .registerAnother,
    .proxyExplicit 7, .proxyIntrospect 7, .reply 3 true, .proxyNotify 0 .unregisterSelf, .proxyNotify 0 .nothing,
    .proxyNotify 1 .newCall]
@@ -197,7 +221,7 @@ runs: a proxy made by a connection-level callback (or an errback) is in the regi
 starts and its callback runs in it; a proxy made by a proxy callback during the walk is not part of that walk
 (the walk is over `valuerefs()`, a snapshot); every original callback still runs exactly once. -/
 example :
-    ((run .repaired (connect [exEp]) [.attemptConnects, .authOk, .helloReply, .notify .newProxy, .call false .newProxy,
+    ((run .repaired (connect [exEp]) [.attemptConnects, .authOk, .helloReply true, .notify .newProxy, .call false .newProxy,
         .proxyExplicit 0, .proxyNotify 0 .newProxy, .proxyExplicit 0, .proxyNotify 1 .nothing, .close]).log.drop 2) =
       [.connCb 0, .callErr 1 .lost, .proxyCb 0 1, .proxyCb 1 2, .proxyCb 2 3, .proxyCb 3 4] := by decide
 
@@ -217,7 +241,7 @@ theorem prefix_model_violates_connect_fires_other :
 /-- F31: an errback that issues a new call while the pending table is walked: the walk dies, the second
 call is never failed, its timer stays in the reactor, the proxy callback never runs. -/
 theorem prefix_model_violates_lost_dict_changed_size :
-    let h := [.attemptConnects, .authOk, .helloReply, .call false .newCall, .call true .nothing,
+    let h := [.attemptConnects, .authOk, .helloReply true, .call false .newCall, .call true .nothing,
               .proxyIntrospect 0, .reply 3 true, .proxyNotify 0 .nothing, .close]
     let s := run .original (connect [exEp]) h
     Fx.crashed ∈ s.log ∧ s.log.countP (Fx.completes 2) = 0 ∧ s.timers = [2] ∧ s.log.count (Fx.proxyCb 0 0) = 0 ∧
@@ -227,14 +251,14 @@ theorem prefix_model_violates_lost_dict_changed_size :
 
 /-- F14 (first half): the disconnect callback of a proxy created from explicit interfaces never runs. -/
 theorem prefix_model_violates_explicit_proxy :
-    let h := [.attemptConnects, .authOk, .helloReply, .proxyExplicit 0, .proxyNotify 0 .nothing, .close]
+    let h := [.attemptConnects, .authOk, .helloReply true, .proxyExplicit 0, .proxyNotify 0 .nothing, .close]
     (run .original (connect [exEp]) h).log.count (Fx.proxyCb 0 0) = 0 ∧
     (run .repaired (connect [exEp]) h).log.count (Fx.proxyCb 0 0) = 1 := by decide
 
 /-- F14 (second half): two live introspected proxies of the same object share one registry slot; the
 first one is never told. -/
 theorem prefix_model_violates_shared_slot :
-    let h := [.attemptConnects, .authOk, .helloReply, .proxyIntrospect 5, .reply 1 true, .proxyIntrospect 5,
+    let h := [.attemptConnects, .authOk, .helloReply true, .proxyIntrospect 5, .reply 1 true, .proxyIntrospect 5,
               .reply 2 true, .proxyNotify 0 .nothing, .proxyNotify 1 .nothing, .close]
     (run .original (connect [exEp]) h).log.count (Fx.proxyCb 0 0) = 0 ∧
     (run .original (connect [exEp]) h).log.count (Fx.proxyCb 1 1) = 1 ∧
@@ -244,10 +268,36 @@ theorem prefix_model_violates_shared_slot :
 /-- New finding: a disconnect callback that unregisters itself makes the next one be skipped
 (connection level and proxy level). -/
 theorem prefix_model_violates_self_unregister :
-    let h := [.attemptConnects, .authOk, .helloReply, .notify .unregisterSelf, .notify .nothing, .close]
+    let h := [.attemptConnects, .authOk, .helloReply true, .notify .unregisterSelf, .notify .nothing, .close]
     (run .original (connect [exEp]) h).log.count (Fx.connCb 1) = 0 ∧
     (run .repaired (connect [exEp]) h).log.count (Fx.connCb 1) = 1 := by decide
 
+/-- Review finding 1 (C09-06): on the tree with C09-01..05 only, a connection-level disconnect callback that
+raises aborts `connectionLost`: the callback registered after it never runs, the pending call is never
+failed, its timer stays in the reactor; likewise a raising proxy callback keeps the next proxy from being told. -/
+theorem prefix_model_violates_raising_callback :
+    let h := [.attemptConnects, .authOk, .helloReply true, .notify .raises, .notify .nothing, .call true .nothing, .close]
+    let s := run .fiveFixes (connect [exEp]) h
+    Fx.crashed ∈ s.log ∧ s.log.count (Fx.connCb 1) = 0 ∧ s.log.countP (Fx.completes 1) = 0 ∧ s.timers = [1] ∧
+    (run .repaired (connect [exEp]) h).log.count (Fx.connCb 1) = 1 ∧
+    (run .repaired (connect [exEp]) h).log.countP (Fx.completes 1) = 1 ∧
+    (run .repaired (connect [exEp]) h).timers = [] ∧
+    (let h' := [.attemptConnects, .authOk, .helloReply true, .proxyExplicit 0, .proxyNotify 0 .raises, .proxyExplicit 1,
+                .proxyNotify 1 .nothing, .close]
+     (run .fiveFixes (connect [exEp]) h').log.count (Fx.proxyCb 1 1) = 0 ∧
+     (run .repaired (connect [exEp]) h').log.count (Fx.proxyCb 1 1) = 1) := by decide
+
+/-- Review finding 2 (C09-07): a Hello reply without a bus name.  Before the repair the Deferred fires with a
+"connection" whose busName is None: its loss takes the early return - the pending call is never failed, no
+callback runs.  After the repair the attempt fails. -/
+theorem prefix_model_violates_hello_without_name :
+    let h := [.attemptConnects, .authOk, .helloReply false, .notify .nothing, .call false .nothing, .close]
+    let s := run .fiveFixes (connect [exEp]) h
+    s.fired = [.connection] ∧ s.log.count (Fx.connCb 0) = 0 ∧ s.log.countP (Fx.completes 1) = 0 ∧ s.pending.length = 1 ∧
+    (run .repaired (connect [exEp]) h).fired = [.helloNoName] := by decide
+
+#print axioms prefix_model_violates_raising_callback
+#print axioms prefix_model_violates_hello_without_name
 #print axioms connect_fires_once
 #print axioms first_reachable_in_order
 #print axioms lost_fails_everything_once
